@@ -3,6 +3,7 @@
 mod common;
 mod cw20;
 mod cw3;
+mod ics20;
 mod thr;
 
 use common::*;
@@ -57,6 +58,7 @@ fn main() {
             match sys.as_str() {
                 "cw20" => cw20::run_schedule(&sched, run_no, &mut out),
                 "cw3" => cw3::run_schedule(&sched, run_no, &mut out),
+                "ics20" => ics20::run_schedule(&sched, run_no, &mut out),
                 _ => {
                     eprintln!("unknown system {sys}");
                     std::process::exit(2);
@@ -79,6 +81,7 @@ fn main() {
         match sys.as_str() {
             "cw20" => cw20::random_run(&mut rng, run_no, len, &mut out),
             "cw3" => cw3::random_run(&mut rng, run_no, len, &mut out),
+            "ics20" => ics20::random_run(&mut rng, run_no, len, &mut out),
             _ => {
                 eprintln!("unknown system {sys}");
                 std::process::exit(2);
